@@ -13,7 +13,7 @@ from common import Report, ToolError, check_action_coverage, log, run_cases, run
 
 NZ = 3
 FB = {"f1": ["z"], "f-2": ["nz"], "f_3": ["nz", "z"]}
-SB = {"s1": [("c", "nz")], "s2": [("c", "z"), ("exit", 4), ("c", "z")]}
+SB = {"s1": [("c", "nz")], "s2": [("c", "z"), ("exit", 4), ("c", "z")], "s3": [("c", "nz"), ("c", "z")]}
 HEAD = {"f1": "function f1() {", "f-2": "function f-2 {", "f_3": "function f_3 () {"}
 ARGS = "$0 $1 \"${2}\" $@ ${7}"
 
@@ -247,7 +247,7 @@ def runner(rep, tier, seed, replay):
     rep.cov["traces_validated_against_impl"] = rep.cov["evaluations"]
     rep.cov["programs_enumerated"] = total
     rep.assumptions += ["non-zero status is 3; `exit` uses 0 and 4", "$@ may arrive as one joined argument or split",
-                        "function bodies / sourced files are fixed (f1: ok; f-2: fails; f_3: fails then ok; s1: fails; s2: ok, exit 4, ok)"]
+                        "function bodies / sourced files are fixed (f1: ok; f-2: fails; f_3: fails then ok; s1: fails; s2: ok, exit 4, ok; s3: fails, ok)"]
     return rep.finish(rule="every program of <= %d top-level statements over {command ok/failing, call of 3 functions, source of 2 files, exit 0/4, "
                            "set -e, if with passing/failing condition and ok/failing body}, enumerated by TLC from spec/ScriptStatus.tla, run "
                            "with arguments (one containing a blank); plus fixed persistence scenarios (source defines function / variable / "
